@@ -46,6 +46,7 @@ theorem toRecs_eq_wanted (e : Ev) : e.toRecs = wanted e := by
   | down addr asn id uptime r emb =>
     cases r <;> simp [Ev.toRecs, wanted, globalHdr, u32_eq_be4, sessDownToBmp, wantedDown]
   | locUp rid asn emb => rfl
+  | live ap lrid lasn rasn rrid acts late so ro embs => rfl
   | flush addr asn id upts post chgs embs =>
     simp only [Ev.toRecs, wanted, flushRecs, wantedFlush, applySnapshot_eq, globalHdr, u32_eq_be4, updContent_eq]
   | dump rid c4 c6 =>
@@ -209,11 +210,7 @@ theorem recDom_np_indep (np : Option Nat) (r : Rec)
     (hr : match r with | .tdRib .. => False | _ => True) (h : recDom none r = true) : recDom np r = true := by
   cases r <;> first | exact h | cases hr
 
-/-- records that are neither table-dump records: domain and state are untouched by them -/
-def noTd : Rec → Bool
-  | .tdPeers .. => false
-  | .tdRib .. => false
-  | _ => true
+/- records that are not table-dump records (`DSpec.noTd`): domain and state are untouched by them -/
 
 theorem recsDom_noTd (rs : List Rec) (hn : rs.all noTd = true) (hd : rs.all (recDom none) = true) :
     ∀ np rest, recsDom np (rs ++ rest) = recsDom np rest := by
@@ -257,6 +254,10 @@ theorem recsDom_wanted (e : Ev) (he : evDom e = true) :
   cases e with
   | flush addr asn id upts post chgs embs =>
     exact recsDom_noTd _ (wantedFlush_noTd ..) he np rest
+  | live ap lrid lasn rasn rrid acts late so ro embs =>
+    simp only [evDom, List.all_eq_true, Bool.and_eq_true] at he
+    exact recsDom_noTd _ (List.all_eq_true.mpr fun r hr => (he r hr).2)
+      (List.all_eq_true.mpr fun r hr => (he r hr).1) np rest
   | dump rid c4 c6 =>
     simp only [evDom, Bool.and_eq_true] at he
     have hall := he.1
